@@ -285,9 +285,9 @@ def _rechunk_decision(ctx, P):
                 ops = [[x_[0] for x_ in x.eff if x_[0] in ("PAD", "RECHUNK")] if isinstance(x, Obj) else None for x in v]
                 if names != ["a", "b"]:
                     bad = f"xarray.apply_ufunc receives {v!r}; one padded array per input, in order, is expected"
-                elif want and (len(rc) != 1 or not all(op == ["PAD", "RECHUNK"] for op in ops)):
+                elif want and (not rc or not all(op == ["PAD", "RECHUNK"] for op in ops)):  # one merge call for all inputs, or one per input
                     bad = f"a chunked core dimension: the boundary chunks created by padding are not merged (operations {ops})"
-                elif want and rc[0][1].get("boundary_width_real_axes") != {AX: (1, 1)}:
+                elif want and any(r[1].get("boundary_width_real_axes") != {AX: (1, 1)} for r in rc):
                     bad = "the merge is not told the widths that were padded"
                 elif not want and (rc or not all(op == ["PAD"] for op in ops)):
                     bad = f"no core dimension is chunked, yet the arrays are re-chunked (operations {ops})"
@@ -554,11 +554,34 @@ def _wiring(ctx, P):
 
 
 def _chunk_merge(ctx, P):
-    fi = P.func("grid_ufunc:_get_chunk_pattern_for_merging_boundary")
     lo, hi = Lin.sym("lo"), Lin.sym("hi")
     c = [Lin.sym(f"c{i}") for i in range(4)]
     dim = dimsym("AX", "center")
     cases = [("one chunk", (c[0],), (lo + c[0] + hi,)), ("two chunks", (c[0], c[1]), (c[0] + lo, c[1] + hi)), ("four chunks", tuple(c), (c[0] + lo, c[1], c[2], c[3] + hi))]
+    if not _takes(P, "grid_ufunc:_get_chunk_pattern_for_merging_boundary", ("grid", "da", "original_chunks", "boundary_width_real_axes")):
+        # no such helper in this tree: the pattern is read off the arrays apply_as_grid_ufunc hands to xr.apply_ufunc
+        for name, chunks, _ in cases:
+            wl, wh = 1, 2
+            want = (Lin.of(wl) + chunks[0] + Lin.of(wh),) if len(chunks) == 1 else (chunks[0] + Lin.of(wl),) + tuple(chunks[1:-1]) + (chunks[-1] + Lin.of(wh),)
+            try:
+                afi, outs = merge_through_apply(P, {"a": chunks, "b": (Lin.sym("b0"), Lin.sym("b1"))}, widths_x=(wl, wh))
+                bad = None
+                for o in outs:
+                    ch = [e for e in o.value[0].eff if e[0] == "chunk"]
+                    pat = ch[-1][1] if ch else None
+                    got = tuple(pat.get(dim, ())) if isinstance(pat, dict) else None
+                    if got is None or len(got) != len(want) or any(Lin.of(g) != Lin.of(w) for g, w in zip(got, want)):
+                        bad = f"new chunks {got!r}; expected {want!r} (boundary chunks merged into the first and last chunk)"
+                    elif Sym("t") in pat:
+                        bad = "chunk pattern also given for an unpadded dimension (only padded dimensions are rechunked)"
+                if bad:
+                    ctx.report("R06.5", afi, f"chunk merge, {name}", bad)
+                else:
+                    ctx.ok("R06.5", f"chunk merge, {name}", f"{chunks} -> {want} (through apply_as_grid_ufunc)")
+            except Unmodelled as e:
+                ctx.unknown("R06.5", f"chunk merge, {name}", str(e))
+        return
+    fi = P.func("grid_ufunc:_get_chunk_pattern_for_merging_boundary")
     for name, chunks, want in cases:
         ev = Evaluator(P, attr_models=da_attr_models())
         try:
@@ -584,13 +607,91 @@ def _chunk_merge(ctx, P):
             ctx.unknown("R06.5", f"chunk merge, {name}", str(e))
 
 
+def _takes(P, q, params):
+    """Is `q` a function of the tree taking (at least) the named parameters?"""
+    if not P.has_func(q):
+        return False
+    a = P.func(q).node.args
+    return set(params) <= {x.arg for x in a.posonlyargs + a.args + a.kwonlyargs}
+
+
+class _Out:
+    kind = "return"
+
+    def __init__(self, value):
+        self.value = value
+
+
+def merge_through_apply(P, chunks_x, widths_x=(1, 2), widths_y=(0, 3)):
+    """The boundary-chunk merge as apply_as_grid_ufunc performs it, whatever private helpers it is divided into: two inputs
+    `a`, `b` chunked as chunks_x = {"a": (...), "b": (...)} along the first padded dimension and in two chunks (y0, y1) along
+    the second, padded by widths_x / widths_y.  Returns, per evaluated path on which the arrays are re-chunked, the lineage
+    of [a, b] after the padding as arrays named `pa`, `pb` (the form run_merge_all returns)."""
+    dim, dim_y = dimsym("AX", "center"), dimsym("AY", "center")
+    chunks_y = (Lin.sym("y0"), Lin.sym("y1"))
+
+    def variable(ev, o, n):
+        if o.name in chunks_x and not o.eff:
+            return Obj("Variable", "variable", (), {"chunksizes": {dim: chunks_x[o.name], dim_y: chunks_y, Sym("t"): (Lin.sym("ct"),)}})
+        return Obj("Variable", o.name, o.eff + (("variable",),), dict(o.attrs))
+
+    def chunk(ev, recv, args, kw, node):
+        return recv.with_eff(("chunk", args[0] if args else kw.get("chunks", kw)))
+
+    def m_new_da(ev, args, kw, node):
+        src = args[0] if args else kw.get("data")
+        if not (isinstance(src, Obj) and src.kind == "Variable" and src.eff):
+            raise Unmodelled(f"xr.DataArray({src!r})", node)
+        return Obj("DataArray", src.name, src.eff + (("new-DataArray", kw.get("name")),), dict(src.attrs))
+
+    am = apply_attr_models()
+    am[("DataArray", "variable")] = variable
+    mm = dict(da_method_models())
+    mm[("DataArray", "chunk")] = chunk
+    mm[("Variable", "chunk")] = chunk
+    models = apply_models(record_rechunk=False)
+    models["xarray.DataArray"] = m_new_da
+    ev = Evaluator(P, models=models, attr_models=am, method_models=mm)
+    fi = P.func("grid_ufunc:apply_as_grid_ufunc")
+    AY = Sym("AY")
+
+    def make():
+        return dict(func=Obj("func", "userfunc"), args=(make_da("a", [Sym("t"), dim_y, dim], name=Sym("name_of_pa")), make_da("b", [Sym("t"), dim_y, dim], name=Sym("name_of_pb"))),
+                    axis=[(AY, AX), (AY, AX)], grid=make_grid(("AX", "AY")), signature="(Y:center,X:center),(Y:center,X:center)->(Y:center,X:center)",
+                    boundary_width={"X": tuple(widths_x), "Y": tuple(widths_y)}, boundary=Sym("USER_BOUNDARY"), fill_value=Sym("USER_FILL"), keep_coords=Sym("USER_KEEP"),
+                    dask=Sym("USER_DASK"), map_overlap=False, pad_before_func=True, other_component=None, kwargs={})
+
+    res = []
+    for o in ev.run_paths(fi, make):
+        if o.kind != "return":
+            continue
+        for e in o.events:
+            if e[0] != "xr.apply_ufunc":
+                continue
+            data = [v for v in e[1][1:] if isinstance(v, Obj)]
+            if [v.name for v in data] != ["a", "b"] or not any(x[0] == "chunk" for v in data for x in v.eff):
+                continue
+            vals = []
+            for v in data:
+                k = max((i for i, x in enumerate(v.eff) if x[0] == "PAD"), default=-1)
+                vals.append(Obj("DataArray", "p" + v.name, tuple(v.eff[k + 1:]), dict(v.attrs)))
+            res.append(_Out(vals))
+    if not res:
+        raise Unmodelled("apply_as_grid_ufunc never re-chunks its padded inputs on the evaluated paths (no boundary-chunk merge found)", None)
+    return fi, res
+
+
 def run_merge_all(P):
     """Evaluate _rechunk_to_merge_in_boundary_chunks on two padded inputs `pa`, `pb` whose originals `a`, `b` are chunked
     differently.  A re-wrapped array (`xr.DataArray(x.variable ...)`) keeps its label and lineage, marked `new-DataArray`."""
-    fi = P.func("grid_ufunc:_rechunk_to_merge_in_boundary_chunks")
     dim = dimsym("AX", "center")
     dim_y = dimsym("AY", "center")
     chunks = {"a": (Lin.sym("a0"), Lin.sym("a1")), "b": (Lin.sym("b0"), Lin.sym("b1"), Lin.sym("b2"))}
+    if not _takes(P, "grid_ufunc:_rechunk_to_merge_in_boundary_chunks", ("padded_args", "original_args", "boundary_width_real_axes", "grid")):
+        # the private helper is absent or divided differently in this tree: the merge is evaluated where the public entry performs it
+        fi, outs = merge_through_apply(P, chunks)
+        return fi, dim, chunks, outs
+    fi = P.func("grid_ufunc:_rechunk_to_merge_in_boundary_chunks")
     chunks_y = (Lin.sym("y0"), Lin.sym("y1"))  # both inputs are chunked along the second padded axis as well
 
     def variable(ev, o, n):
@@ -669,6 +770,42 @@ def _callers_unpack(P, event):
     return seen
 
 
+def _vector_merge_through_apply(P):
+    """apply_as_grid_ufunc on a vector component {axis: u} chunked along its core dimension, with the boundary-chunk merge
+    evaluated (not modelled).  Returns (function, None) when every path on which the arrays are re-chunked returns, else
+    (function, the raising outcome)."""
+    two = (Lin.sym("c0"), Lin.sym("c1"))
+
+    def variable(ev, o, n):
+        return Obj("Variable", "variable", (), {"chunksizes": {d: two for d in o.attrs["dims"]}})
+
+    def chunk(ev, recv, args, kw, node):
+        return recv.with_eff(("chunk", args[0] if args else kw.get("chunks", kw)))
+
+    am = apply_attr_models()
+    am[("DataArray", "variable")] = variable
+    mm = dict(da_method_models())
+    mm[("DataArray", "chunk")] = chunk
+    ev = Evaluator(P, models=apply_models(record_rechunk=False), attr_models=am, method_models=mm)
+    fi = P.func("grid_ufunc:apply_as_grid_ufunc")
+
+    def make():
+        return dict(func=Obj("func", "userfunc"), args=({AX: make_da("u", [Sym("t"), dimsym("AX", "left"), dimsym("AY", "center")])},), axis=[(AX,)], grid=make_grid(("AX", "AY")),
+                    signature="(X:left)->(X:center)", boundary_width={"X": (0, 1)}, boundary=Sym("USER_BOUNDARY"), fill_value=Sym("USER_FILL"), keep_coords=Sym("USER_KEEP"),
+                    dask=Sym("USER_DASK"), map_overlap=False, pad_before_func=True,
+                    other_component={Sym("AY"): make_da("v", [Sym("t"), dimsym("AX", "center"), dimsym("AY", "left")])}, kwargs={})
+
+    outs = ev.run_paths(fi, make)
+    merged = 0
+    for o in outs:
+        if o.kind != "return":
+            return fi, o
+        merged += any(isinstance(v, Obj) and any(x[0] == "chunk" for x in v.eff) for e in o.events if e[0] == "xr.apply_ufunc" for v in e[1][1:])
+    if not merged:
+        raise Unmodelled("apply_as_grid_ufunc never re-chunks a chunked vector component on the evaluated paths", None)
+    return fi, None
+
+
 def _vector_lazy(ctx, P):
     # _rechunk_to_merge_in_boundary_chunks and _map_func_over_core_dims with {axis: DataArray} originals
     def variable(ev, o, n):
@@ -677,17 +814,27 @@ def _vector_lazy(ctx, P):
     am = dict(da_attr_models())
     am[("DataArray", "variable")] = variable
     u = lambda: make_da("u", [Sym("t"), dimsym("AX", "left")])
-    fi = P.func("grid_ufunc:_rechunk_to_merge_in_boundary_chunks")
-    ev = Evaluator(P, attr_models=am, method_models=da_method_models())
+    inst = "_rechunk_to_merge_in_boundary_chunks with a vector argument"
     try:
-        outs = ev.run_paths(fi, lambda: dict(padded_args=[make_da("padded", [Sym("t"), dimsym("AX", "left")])], original_args=[{AX: u()}], boundary_width_real_axes={AX: (0, 1)}, grid=make_grid(("AX", "AY"))))
-        if all(o.kind == "return" for o in outs):
-            ctx.ok("R06.6", "_rechunk_to_merge_in_boundary_chunks with a vector argument", "unpacked before .variable")
-        elif _callers_unpack(P, "rechunk"):
-            ctx.ok("R06.6", "_rechunk_to_merge_in_boundary_chunks with a vector argument", "the caller hands over unpacked components")
+        if not _takes(P, "grid_ufunc:_rechunk_to_merge_in_boundary_chunks", ("padded_args", "original_args", "boundary_width_real_axes", "grid")):
+            # the helper is absent or divided differently in this tree: the merge of a dask-backed vector component is evaluated
+            # where apply_as_grid_ufunc performs it
+            afi, raised = _vector_merge_through_apply(P)
+            if raised is None:
+                ctx.ok("R06.6", inst, "a chunked {axis: component} input is padded, merged and handed to xr.apply_ufunc (through apply_as_grid_ufunc)")
+            else:
+                ctx.report("R06.6", afi, inst, f"a dask-backed {{axis: component}} input raises {raised.value} ({getattr(raised.exc, 'msg', '')}): the dictionary reaches an array-only attribute")
         else:
-            o = [o for o in outs if o.kind != "return"][0]
-            ctx.report("R06.6", fi, "_rechunk_to_merge_in_boundary_chunks with a vector argument", f"a dask-backed {{axis: component}} input raises {o.value} ({getattr(o.exc, 'msg', '')}): the dictionary reaches an array-only attribute")
+            fi = P.func("grid_ufunc:_rechunk_to_merge_in_boundary_chunks")
+            ev = Evaluator(P, attr_models=am, method_models=da_method_models())
+            outs = ev.run_paths(fi, lambda: dict(padded_args=[make_da("padded", [Sym("t"), dimsym("AX", "left")])], original_args=[{AX: u()}], boundary_width_real_axes={AX: (0, 1)}, grid=make_grid(("AX", "AY"))))
+            if all(o.kind == "return" for o in outs):
+                ctx.ok("R06.6", inst, "unpacked before .variable")
+            elif _callers_unpack(P, "rechunk"):
+                ctx.ok("R06.6", inst, "the caller hands over unpacked components")
+            else:
+                o = [o for o in outs if o.kind != "return"][0]
+                ctx.report("R06.6", fi, inst, f"a dask-backed {{axis: component}} input raises {o.value} ({getattr(o.exc, 'msg', '')}): the dictionary reaches an array-only attribute")
     except Unmodelled as e:
         ctx.unknown("R06.6", "_rechunk with vector", str(e))
     fi2 = P.func("grid_ufunc:_map_func_over_core_dims")
